@@ -321,7 +321,7 @@ pub fn tok_space(with_var: bool, max_len: usize, render: Render, oracle: fn(&str
 /// and defcalgrammar paths, literals in expressions), terminated and unterminated, with every
 /// body of at most `depth` atoms over escapes, multi-byte characters and quotes.
 pub fn literal_context_texts(depth: usize) -> Vec<String> {
-    let atoms = ["a", "0", "1", "_", "\\\\", "\\n", "\\q", "\\", "é", "😀", "\\u{", "1F", "}", "\\x", "\\\"", "'", ".inc", "/"];
+    let atoms = ["a", "0", "1", "_", "\\\\", "\\n", "\\q", "\\", "é", "😀", "\\u{", "1F", "100000000", "}", "\\x", "\\\"", "'", ".inc", "/"];
     let mut bodies = vec![String::new()];
     let mut layer = vec![String::new()];
     for _ in 0..depth {
